@@ -171,7 +171,8 @@ func run(pl Plan) (res vfx.Result) {
 	// drain
 	// (small packets and thousands of queued messages take long: wait as long as the backlog keeps shrinking)
 	lastN, lastChange := p.Rec.PendingUser(), p.Net.Now()
-	for p.Rec.PendingUser() > 0 && p.Net.Now()-lastChange < 10*time.Second {
+	// (membership broadcasts go first: hundreds of members turning suspect and dead can starve the user queue for minutes)
+	for p.Rec.PendingUser() > 0 && p.Net.Now()-lastChange < 300*time.Second {
 		time.Sleep(200 * time.Millisecond)
 		if n := p.Rec.PendingUser(); n != lastN {
 			lastN, lastChange = n, p.Net.Now()
